@@ -72,6 +72,19 @@ def gen_abmf_history(rng, hid, nsteps):
             op["used"] = str(amt)
         else:
             op["requested"] = str(amt)
+        # requests that continue the previous request's Diameter session, as the CHF's do (one session per
+        # subscriber, numbered per rating group): same Session-Id, often the same CC-Request-Number, sometimes
+        # the same type and amount -- on the same or on another account.  A server that recognises "the same
+        # request again" by these alone must still move the addressed balance by exactly the stated amount.
+        if ops and rng.random() < 0.4:
+            prev = ops[-1][0]
+            op["sessionId"] = prev["sessionId"]
+            if rng.random() < 0.7:
+                op["reqNum"] = prev["reqNum"]
+                if rng.random() < 0.6 and not (prev["action"] == 0 and prev["reqType"] == 3):
+                    op["action"], op["reqType"] = prev["action"], prev["reqType"]
+                    op["used"] = None
+                    op["requested"] = prev["requested"] if rng.random() < 0.7 else str(amt)
         if rng.random() < 0.02:
             op["omitMscc"] = True
         ops.append((op, ue))
@@ -185,6 +198,7 @@ def run(ctx, replay=None):
             k += len(accounts)
             dbs = coq_list("mkDoc %d %d (%d) %s" % (ue, rg, quota, zl(cost)) for (supi, ue, rg, quota, cost) in accounts)
             steps = []
+            prev_op = None
             for (op, ue) in ops:
                 o = res[k]
                 k += 1
@@ -197,6 +211,11 @@ def run(ctx, replay=None):
                 steps.append("(%s, %s, %s)" % (c, parse_cca(o), coq_list("(%d)" % q for q in qs)))
                 cls = "a%d-t%d-%s" % (op["action"], op["reqType"], "ans" if o.get("answered") else "noans")
                 classes[cls] = classes.get(cls, 0) + 1
+                if prev_op is not None and prev_op["sessionId"] == op["sessionId"]:
+                    sc = "same-session" + ("-same-number" if prev_op["reqNum"] == op["reqNum"] else "") + \
+                         ("-other-account" if (prev_op["supi"], prev_op["rg"]) != (op["supi"], op["rg"]) else "")
+                    classes[sc] = classes.get(sc, 0) + 1
+                prev_op = op
             cases.append("mkAcase %d %s %s" % (h, dbs, coq_list(steps)))
             if h < 2:
                 samples.append({"accounts": [(a[0], a[2], a[3]) for a in accounts], "ops": [o for (o, _) in ops][:6]})
@@ -320,7 +339,8 @@ def run(ctx, replay=None):
     cov.update({
         "evaluations": evals, "distinct_nontrivial": distinct,
         "rule": ("C07: histories of 3..16 CCRs over 1..3 accounts; action x type pairs weighted towards reserve/terminate/refund; amounts 0,1,bal-1,bal,bal+1,"
-                 "2^32+-1,2^63-1,random; balances 0,1,5,100,1000,2^32+1,2^62,2^63-1, few negative; unknown subscriber / rating group; missing MSCC. "
+                 "2^32+-1,2^63-1,random; balances 0,1,5,100,1000,2^32+1,2^62,2^63-1, few negative; unknown subscriber / rating group; missing MSCC; 40 % of the requests continue the previous request's Diameter session "
+                 "(same Session-Id, mostly the same CC-Request-Number, often the same type and amount, on the same or another account: counted as same-session* below). "
                  "C08: one account per request with unit-cost strings from a fixed adversarial list (0, empty, '.', text, signs, fractions, leading zeros, "
                  "20 digits, 2^32...) or random digit strings; consumed/quota at 0,1,cost-1,cost,cost+1,2^32-1,2^32/cost(+1),random; sub-types reserve/debit/other; "
                  "unknown subscriber. distinct = distinct request contents; every request reaches the real handler over Diameter"),
